@@ -14,6 +14,7 @@ import (
 )
 
 var profile = histeng.Profile{MaxTargets: 6, Edits: []string{"edit-content", "bump-nonce", "toggle-nocache", "toggle-nocache"}, Taint: true, NoCacheBuild: true, NoCacheTags: true,
+	ExtSteps: []string{"set-fail", "clear-switches"}, Minimal: true,
 	DirOutputs: true, MinSteps: 4, MaxSteps: 12, SubsetBuilds: true}
 
 func run(h histeng.History) (pbt.Result, error) {
